@@ -23,7 +23,8 @@ RULE = ('integer lists: every list up to a small length over a small alphabet (e
         '-(n+2)..n+1 and every query min-2..max+2, plus random long lists built from runs (positive/zero/negative '
         'strides, repeats, near-miss continuations, bignums), sorted variants with queries around every element; '
         'float lists from noisy/exact progressions; LIS record tables from runs of regular positions and equal frame '
-        'counts with every frame number. Non-trivial = the encoding has >= 2 runs and at least one run with '
+        'counts with every frame number; inputs outside the quantifier (largest_le of unsorted lists, frame counts < 1, '
+        'positions not increasing) are compared with the model informationally only. Non-trivial = the encoding has >= 2 runs and at least one run with '
         'repeat >= 1 (RLE) / >= 2 runs or a run with repeat >= 1 and >= 2 frames per record (RLEType01); '
         'distinct by the input sequence.')
 ASSUMPTIONS = ['the plain Python list of added values (and bisect on it) is the reference for position/iteration/largest_le',
@@ -55,6 +56,14 @@ def _exc(f, *a):
         return 'Z'
     except AssertionError:
         return 'A'
+
+
+def soft(ctx, key, impl, model):
+    """comparison outside the property's quantifier (unsorted largest_le, frame counts < 1, positions not increasing):
+    counted and noted, never a disagreement — a rewrite that only changes behaviour there must not raise an alarm."""
+    ctx.count(key + '_compared')
+    if impl != model:
+        ctx.count(key + '_differences')
 
 
 def _csv(xs):
@@ -343,6 +352,10 @@ def gen_recs(rng, target, xfloat=False, wild=False):
     return recs[:target]
 
 
+def in_quantifier(recs):
+    return all(n >= 1 for _, n, _ in recs) and all(a[0] < b[0] for a, b in zip(recs, recs[1:]))
+
+
 def _recs_s(recs):
     return ';'.join(f'{p}:{n}:{x}' for p, n, x in recs) or '-'
 
@@ -384,7 +397,12 @@ def run(ctx):
     model = ctx.lean([f'rle {_csv(xs)} {_csv(idx)} {_csv(qs)}' for xs, idx, qs in cases])
     for k, ((xs, idx, qs), m) in enumerate(zip(cases, model)):
         out = impl_rle(R, xs, idx, qs)
-        ctx.corr('rle', {'op': 'rle', 'xs': xs if len(xs) <= 64 else xs[:64] + ['...'], 'idx': idx[:16], 'qs': qs[:16]}, out, m)
+        if is_sorted(xs):
+            ctx.corr('rle', {'op': 'rle', 'xs': xs if len(xs) <= 64 else xs[:64] + ['...'], 'idx': idx[:16], 'qs': qs[:16]}, out, m)
+        else:   # largest_le of a sequence that is not ascending is outside the property: compared softly
+            ctx.corr('rle', {'op': 'rle', 'xs': xs if len(xs) <= 64 else xs[:64] + ['...'], 'idx': idx[:16]},
+                     out.rsplit(' le=', 1)[0], m.rsplit(' le=', 1)[0])
+            soft(ctx, 'largest_le_on_unsorted', out, m)
         ctx.count('oracle_cases')
         srt = is_sorted(xs)
         bad = oracle_rle(R, xs, idx if k >= n_exh else None, (qs if srt else None) if k >= n_exh else (list(range(-5, 6)) if srt else None))
@@ -451,7 +469,7 @@ def run(ctx):
     for _ in range(ctx.n(400, 4000)):   # outside the hypotheses (counts <= 0, positions not increasing): correspondence only
         recs = gen_recs(rng, rng.randint(0, 25), wild=True)
         total = max(0, sum(n for _, n, _ in recs))
-        tcases.append((recs, list(range(-2, min(total, 100) + 3)), all(n >= 1 for _, n, _ in recs)))
+        tcases.append((recs, list(range(-2, min(total, 100) + 3)), in_quantifier(recs)))
     # exhaustive tiny tables: up to 4 records, positions from increments 1..2, counts 1..3
     n_t_exh = 0
     for k in range(0, ctx.n(4, 5)):
@@ -464,9 +482,10 @@ def run(ctx):
     model = ctx.lean([f't01 {_recs_s(recs)} {_csv(frames)}' for recs, frames, _ in tcases])
     for (recs, frames, valid), m in zip(tcases, model):
         out = impl_t01(L, recs, frames)
-        ctx.corr('t01', {'op': 't01', 'recs': [list(r) for r in recs[:40]], 'frames': frames[:16]}, out, m)
-        if not valid:
+        if not valid:   # counts < 1 or positions not strictly increasing: outside the property, compared softly
+            soft(ctx, 't01_outside_hypotheses', out, m)
             continue
+        ctx.corr('t01', {'op': 't01', 'recs': [list(r) for r in recs[:40]], 'frames': frames[:16]}, out, m)
         ctx.count('oracle_cases')
         bad = oracle_t01(L, recs, frames)
         if bad is not None:
@@ -479,6 +498,9 @@ def run(ctx):
     ctx.extra['exhaustive_scope'] += f'; all {n_t_exh} record tables with <= {ctx.n(3, 4)} records, position increments 1..2, counts 1..3, every frame -2..total+2'
     ctx.sample({'op': 't01', 'recs': [list(r) for r in tcases[5][0][:12]], 'model_reply': model[5][:300]})
     ctx.count('t01_cases', len(tcases))
+    for key in ('largest_le_on_unsorted', 't01_outside_hypotheses'):
+        ctx.note(f'{key}: {ctx.stats.get(key + "_compared", 0)} model/implementation comparisons outside the property\'s '
+                 f'quantifier, {ctx.stats.get(key + "_differences", 0)} differences (informational, not part of the verdict)')
     # float X values (oracle only)
     for _ in range(ctx.n(300, 3000)):
         recs = gen_recs(rng, rng.randint(0, 40), xfloat=True)
@@ -508,7 +530,7 @@ def search(ctx):
 
 def replay(ctx, rec):
     R, L = _impl()
-    case = rec['case']
+    case = rec.get('case') or {}
     op = case.get('op')
     if op == 'rle':
         bad = oracle_rle(R, case['xs'], case.get('idx'), case.get('qs'))
